@@ -108,7 +108,7 @@ def run(ctx):
     log("[C14] generated %d scenarios (%d states) in %.1fs" % (len(scen), g.distinct, g.wall))
     rnd = random.Random(ctx.seed)
     if quick:
-        keep = scen[:12] + rnd.sample(scen[12:], min(len(scen) - 12, 1200))
+        keep = scen[:12] + rnd.sample(scen[12:], min(len(scen) - 12, 1000))
     else:
         keep = scen
     nrand = 6 if quick else 40
@@ -190,7 +190,7 @@ def run(ctx):
     rc = V.finish()
     assumptions = ["a crash of the writing process is modelled as a prefix of the flushed byte stream; torn writes inside the OS are out of scope",
                    "timestamps: seconds < 2^31 (TLC integers are 32 bit); pcapng writer resolution is fixed to nanoseconds by the library",
-                   "quick tier replays the scenarios of one rotation / one pcapng head chosen by the seed (sampled to ~1200); thorough replays all"]
+                   "quick tier replays the scenarios of one rotation / one pcapng head chosen by the seed (sampled to ~1000); thorough replays all"]
     if not libpcap_used:
         assumptions.append("libpcap clause SKIPPED: /repo/pcap (cgo, libpcap headers) did not build in this environment")
     else:
